@@ -182,8 +182,24 @@ def check(run):
     if not ok:
         run.violation("R5", ini.where, "PrimitiveAttributes no longer shares the owner's hashed DataStore", key=key_of("C15-R5", "shared-store"))
     sa = PA.methods["__setattr__"]
-    txt = ast.unparse(sa.node)
-    ok = "self._data[key] = util.convert_like(value, self._defaults[key])" in txt and "raise ValueError" in txt and "if self._mutable:" in txt
+    # path summaries (sa/pathsum.py): the store into the DataStore happens only for known keys of a mutable primitive, and
+    # an immutable primitive refuses known keys by raising - however the tests are nested or negated
+    from ..pathsum import summaries
+    kp, vp = sa.params[1], sa.params[2]
+
+    def _store(st):
+        return isinstance(st, ast.Assign) and ast.unparse(st.targets[0]) == f"self._data[{kp}]"
+
+    paths = summaries(sa.node)
+    storing = [ps for ps in paths if ps.has_stmt(_store)]
+    ok = bool(storing)
+    for ps in storing:
+        st = next(s_ for s_ in ps.stmts if _store(s_))
+        conv = ast.unparse(st.value) in (f"util.convert_like({vp}, self._defaults[{kp}])", f"util.convert_like(item={vp}, like_item=self._defaults[{kp}])")
+        ok = ok and conv and ps.holds("self._mutable") is True and ps.holds(f"{kp} in self._defaults") is True
+    for ps in paths:
+        if ps.holds("self._mutable") is False and ps.holds(f"{kp} in self._defaults") is True and ps.exit != "raise":
+            ok = False
     run.instance("R5", sa.where, "__setattr__ stores into the DataStore, refuses immutable primitives and unknown keys", ok)
     if not ok:
         run.violation("R5", sa.where, "PrimitiveAttributes.__setattr__ protocol changed", key=key_of("C15-R5", "setattr"))
